@@ -348,6 +348,9 @@ func (img *image) run(j *job) (*jobResult, error) {
 				if j.sequential() {
 					runtime.ReadMemStats(&ms1)
 					d := ms1.TotalAlloc - ms0.TotalAlloc
+					if os.Getenv("C09_DEBUG") != "" {
+						fmt.Fprintf(os.Stderr, "probe %s entry %d vLen %d: %s err=%v alloc=%d MiB\n", j.kind, i, e.vLen, vr.o.class(), vr.o.err, d>>20)
+					}
 					if j.kind == "vlen-huge" && d >= hugeVLen/2 && e.vLen >= hugeVLen {
 						finding("ReadValue", "unbounded-allocation", "vLen", fmt.Sprintf("entry=%d vLen=%d allocated>=%dMiB although MaxValueLen=%d", i, e.vLen, d>>20, maxValueLen))
 					}
